@@ -204,12 +204,29 @@ def r2(ctx):
             for d in decs:
                 n += 1
                 buf = d.value.args[0].id
+                from ..facts import atoms as _atoms, expand_test as _expand
+
+                def _empty(a, v):
+                    """the atom says: the buffer read in this iteration is empty"""
+                    txt = unparse(a).replace('"', "'")
+                    if v and txt in (f"len({buf}) == 0", f"0 == len({buf})", f"{buf} == b''", f"b'' == {buf}", f"len({buf}) < 1", f"len({buf}) <= 0", f"1 > len({buf})"):
+                        return True
+                    if (not v) and txt in (buf, f"len({buf})", f"len({buf}) > 0", f"len({buf}) >= 1", f"0 < len({buf})"):
+                        return True
+                    return False
+
+                g = f.cfg
+                d_ids = set(g.ids_of(d))
                 leaves = False
-                for t in [x for x in ast.walk(lp) if isinstance(x, ast.If)]:
-                    txt = unparse(t.test)
-                    if txt in (f"len({buf}) == 0", f"not {buf}", f"{buf} == b''", f"not len({buf})", f"len({buf}) < 1"):
-                        if any(isinstance(y, (ast.Raise, ast.Break, ast.Return)) for s in t.body for y in ast.walk(s)):
-                            leaves = True
+                for t in g.nodes.values():
+                    if t.kind != "test" or t.ast is None or not any(a is lp for a in ancestors(t.ast)):
+                        continue
+                    e = _expand(f, t.ast)
+                    for kind in ("t", "f"):
+                        if any(_empty(a, v) for a, v in _atoms(e, kind == "t")):
+                            succs = [b for b, k in g.succ[t.id] if k == kind]
+                            if succs and not (d_ids & g.reach(succs, avoid=[t.id], include_src=True)):
+                                leaves = True
                 ctx.ob("R2", f"{f.qualname.split('.', 3)[-1]}: the byte-budget loop leaves on an empty read", leaves, func=f, node=lp,
                        instance=f"{f.name}:progress:{buf}",
                        message=f"{f.qualname}: `{unparse(d)}` makes no progress when `{buf}` is empty: a truncated stream hangs the copy instead of failing")
